@@ -123,9 +123,45 @@ def _own(stmts):
 
 
 def _strip_doc(body):
+    """Body without the docstring and without leading constants bound to locals that nothing reads (no effect, no meaning)."""
     if body and isinstance(body[0], ast.Expr) and isinstance(body[0].value, ast.Constant) and isinstance(body[0].value.value, str):
-        return body[1:]
+        body = body[1:]
+    while len(body) > 1 and isinstance(body[0], ast.Assign) and isinstance(body[0].value, ast.Constant) and len(body[0].targets) == 1 \
+            and isinstance(body[0].targets[0], ast.Name):
+        name = body[0].targets[0].id
+        if any(isinstance(x, ast.Name) and x.id == name for st in body[1:] for x in ast.walk(st)):
+            break
+        body = body[1:]
     return body
+
+
+def _pure_read(e) -> bool:
+    """Expression without calls, bindings or comprehensions: reading it twice is reading it once."""
+    return not any(isinstance(x, (ast.Call, ast.NamedExpr, ast.Lambda, ast.ListComp, ast.SetComp, ast.DictComp, ast.GeneratorExp,
+                                  ast.Await, ast.Yield, ast.YieldFrom)) for x in ast.walk(e))
+
+
+def _as_single_expr(body):
+    """`return <expr>` - possibly after locals bound once to pure reads (`token = self.current_token`), which are written out
+    in the returned expression.  None if the body is anything else."""
+    body = _strip_doc(body)
+    if not body or not isinstance(body[-1], ast.Return) or body[-1].value is None:
+        return None
+    env: dict[str, ast.expr] = {}
+    for st in body[:-1]:
+        if not (isinstance(st, ast.Assign) and len(st.targets) == 1 and isinstance(st.targets[0], ast.Name) and st.targets[0].id not in env
+                and _pure_read(st.value)):
+            return None
+        env[st.targets[0].id] = _Subst(dict(env)).visit(clone(st.value)) if env else clone(st.value)
+    expr = clone(body[-1].value)
+    if not env:
+        return expr
+    if any(isinstance(x, ast.Name) and x.id in env and not isinstance(x.ctx, ast.Load) for x in ast.walk(expr)):
+        return None
+    try:
+        return _Subst(dict(env)).visit(expr)
+    except _Skip:
+        return None
 
 
 def _simple(e) -> bool:
@@ -274,7 +310,7 @@ class Inliner:
             return None
         if gen:
             return "gen"
-        if len(body) == 1 and isinstance(body[0], ast.Return) and body[0].value is not None:
+        if _as_single_expr(body) is not None:
             return "expr"
         if any(isinstance(x, ast.Return) and x.value is not None and not (isinstance(x.value, ast.Constant) and x.value.value is None)
                for x in _own(body)):
@@ -425,6 +461,34 @@ class Inliner:
                 except _Skip as e:
                     self.stats["skipped"] += 1
                     self.log.append(f"{f.key}: {g.key} not expanded ({e})")
+        # `t = [E for x in it if c]` whose element expression calls a transparent helper that is more than one expression: the
+        # comprehension is written out as the loop it abbreviates, so that the helper can be expanded in its body
+        if depth < MAX_DEPTH and isinstance(s, (ast.Assign, ast.AnnAssign)) and isinstance(getattr(s, "value", None), ast.ListComp):
+            tgt = s.targets[0] if isinstance(s, ast.Assign) and len(s.targets) == 1 else (s.target if isinstance(s, ast.AnnAssign) else None)
+            lc = s.value
+            if isinstance(tgt, ast.Name) and len(lc.generators) == 1 and not lc.generators[0].is_async and any(
+                    getattr(c, "_inl", None) is not None and self.shape(c._inl) in ("func",) for c in self._unconditional_calls(lc.elt)):
+                gen = lc.generators[0]
+                taken = self._caller_names(f)
+                bound = {x.id for x in ast.walk(gen.target) if isinstance(x, ast.Name)}
+                # the comprehension's own variable is private to it: keep its name only if nothing else in f uses it
+                outside = [x for x in ast.walk(f.node) if isinstance(x, ast.Name) and x.id in bound and not any(x is y for y in ast.walk(lc))]
+                if not outside and not any(isinstance(x, ast.Name) and x.id == tgt.id for x in ast.walk(lc)):
+                    init = ast.copy_location(ast.Assign(targets=[ast.Name(id=tgt.id, ctx=ast.Store())], value=ast.List(elts=[], ctx=ast.Load())), s)
+                    app = ast.Expr(value=ast.Call(func=ast.Attribute(value=ast.Name(id=tgt.id, ctx=ast.Load()), attr="append", ctx=ast.Load()),
+                                                  args=[lc.elt], keywords=[]))
+                    body = [app]
+                    for cond in reversed(gen.ifs):
+                        body = [ast.If(test=cond, body=body, orelse=[])]
+                    loop = ast.For(target=gen.target, iter=gen.iter, body=body, orelse=[])
+                    for x in ast.walk(loop.target):
+                        if isinstance(x, ast.Name):
+                            x.ctx = ast.Store()
+                    for st in (init, loop):
+                        ast.copy_location(st, s)
+                        ast.fix_missing_locations(st)
+                    self.log.append(f"{f.key}: list comprehension written out as a loop")
+                    return [init] + self._stmt(f, loop, depth)
         # a transparent helper called somewhere inside a simple statement (`x = helper(a).attr`, `f(helper(a))`, `if helper(a):`):
         # its result is first bound to a fresh local by a statement of its own, which is then expanded as above
         if depth < MAX_DEPTH and isinstance(s, (ast.Expr, ast.Assign, ast.AugAssign, ast.AnnAssign, ast.Return, ast.If)):
@@ -716,10 +780,9 @@ class Inliner:
                     inl.expand(g, depth + 1)
                     if id(g) in inl._active:
                         raise _Skip("recursive")
-                    body = _strip_doc(g.node.body)
-                    if not (len(body) == 1 and isinstance(body[0], ast.Return) and body[0].value is not None):
+                    expr = _as_single_expr(g.node.body)
+                    if expr is None:
                         raise _Skip("no longer a single expression")
-                    expr = clone(body[0].value)
                     nodes = list(ast.walk(expr))
                     if any(isinstance(n, (ast.NamedExpr, ast.Lambda)) for n in nodes):
                         raise _Skip("binding constructs in the expression")
@@ -787,4 +850,12 @@ def expand_helpers(repo) -> dict:
     stats = inl.run()
     stats["log"] = inl.log
     stats["into"] = {k: sorted(v) for k, v in inl.into.items()}
+    # helpers of which some call is still a call (shape not handled, recursion, name clash …)
+    left = set()
+    for m in repo.pkg_modules():
+        for n in ast.walk(m.tree):
+            g = getattr(n, "_inl", None) if isinstance(n, ast.Call) else None
+            if g is not None:
+                left.add(g.key)
+    stats["still_called"] = sorted(left)
     return stats
